@@ -79,7 +79,7 @@ Fixpoint dec_regions (n : nat) (l : list tok) : option (list region * list tok) 
                if (ps =? 0) || (1000000 <? sz) then None else
                match dec_regions k r with
                | Some (rs, rest) =>
-                   Some ({| r_start := st; r_size := sz; r_ps := ps; r_tracked := (tr =? 1) || (tr =? 2) || (tr =? 3) || (tr =? 5);
+                   Some ({| r_start := st; r_size := sz; r_ps := ps; r_tracked := (tr =? 1) || (tr =? 2) || (tr =? 3) || (tr =? 5) || (tr =? 6);
                             r_dirty := repeat false (N.to_nat (npages sz ps)) |} :: rs, rest)
                | None => None end
            | _ => None end
